@@ -78,6 +78,22 @@ CHECKS = {
         text="Generated priority / priority-pool simulations incl. a preemption profile (long multi-operator containers, query bursts, 1-3 tick suspensions); "
              "every recorded round judged from the pre-round snapshot, the decisions and the post-scheduler operator states.",
         note=SIM_NOTE + " Liveness wording is decided in its bounded per-round form.", ref="6 C12"),
+    "C13": dict(
+        technique="exhaustive arrival grid (k <= 20000 x 2 spellings x 12 tick rates) + property-based trace replay and gentrace round trips (Hypothesis), exact-rational oracle",
+        text="Every grid arrival and thousands of generated traces replayed through CSVWorkloadReader + WorkloadTrace and judged in exact Fractions "
+             "(exactly once, never early, first tick >= arrival, file order, nothing beyond the end); gentrace round trips against the generator "
+             "run directly. The recorded finding late-on-grid is recognised by its exact signature only.",
+        note="Precondition of the statement: rows in ascending arrival order. Tick loop bounded (10^4 ticks quick, 10^6 thorough).", ref="6 C13"),
+    "C14": dict(
+        technique="property-based round-trip and fault-injection testing (Hypothesis) of the CSV writer/reader",
+        text="Generated DAG workloads written and read back (field-by-field equality, None vs 0), read-write second leg compared row-wise, hand-formatted "
+             "files against the reference structure, and each listed format rule broken at a generated row must be refused.",
+        note="Inputs the statement does not classify (duplicate ids, NaN, missing columns ...) are never generated.", ref="6 C14"),
+    "C15": dict(
+        technique="property-based testing (Hypothesis) of the workload generator: structural clauses per event + fixed-sample statistical and metamorphic clauses",
+        text="Generated seeds and parameter sets; every event checked structurally; class frequencies, operator-count mean, mean gap and the "
+             "cpu_io_ratio shift checked with fixed sample sizes and >= 6 sigma margins.",
+        note="Prototype table transcribed from the pinned commit; statistical clauses have a false-alarm probability below 1e-8 per case.", ref="6 C15"),
     "C16": dict(
         technique="property-based testing (Hypothesis) of priority-pool simulations with a per-assignment monitor",
         text="Generated two-pool simulations with OOM and repeated doubling on both pools; pool/priority of every assignment, empty suspensions, retry shape "
@@ -93,6 +109,12 @@ CHECKS = {
         text="Generated overbook simulations with overcommit: shape of every assignment, containers <= CPUs, no ready operator beside a free CPU after a "
              "triggered round, abandonment after three failed containers.",
         note=SIM_NOTE, ref="6 C18"),
+    "C20": dict(
+        technique="property-based testing (Hypothesis) of the CLI tools with an exact-decimal oracle; child-process run of sensitivity-sample",
+        text="Generated traces through `tools snap` (boundary, floor, never up, < 1 tick, idempotent, other columns intact) and `tools jitter` "
+             "(bounds, order, completeness, reproducibility, seed sensitivity); `tools sensitivity-sample` run as a child process and each w{i}.csv "
+             "compared with the trace of seed start_seed + i.",
+        note="Input traces are well-formed (unique contiguous pipeline ids, ascending arrivals).", ref="6 C20"),
 }
 
 PENDING_REASON = "check not built yet in this revision of the framework (planned, see DESIGN.md section 6)"
